@@ -22,8 +22,9 @@
    the positive integer den (den 2 gives half-integers, den 5 the 3-4-5 phases, ...).  Membership in every class is
    decided exactly: congruence by exact rational division, span membership by fraction-free elimination (rank),
    eigenvectors and phases by cross-multiplied equations.  "Within tolerance" enters in two ways only:
-     * jit # 0  says that the real code is given the value shifted by tolerance/1000 in its first real coordinate;
-       such a submission is within tolerance of the lattice value and must be treated like it;
+     * jit # 0  says that the real code is given the value shifted by tolerance/1000 in its first real coordinate
+       (1e-7 under the absolute tolerance 1e-4; 1e-10 under the percentage tolerance 0.001 %, for vectors of norm
+       >= 0.1); such a submission is within tolerance of the lattice value and must be treated like it;
      * GuardOK(c) says that every sample is either exactly in the class or at least 1000 tolerances away from it
        (distances are computed exactly, through Gram determinants where a least-squares distance is needed).
    Cases that fail GuardOK are never generated (law LawGuard) so that rounding can never flip a verdict.
@@ -33,8 +34,6 @@
        student-facing error; the same for a real value that arrives typed as a complex number (3 + 0*i, i^2 + 4)
        and is NOT in the class -- whereas such a value that is in the class must be accepted, because membership
        in the documented class does not depend on the type the value happens to have;
-     * a congruent submission shifted by tolerance/1000 across a multiple of the modulus (target = 0 mod m): the
-       documentation ("reduces modulo the modulus, then compares") and the statement disagree; both are allowed;
      * LinearComparer relations that hold in one direction only (student = a * expected + b with a = 0, or the
        converse): both readings are allowed;
      * LinearComparer with no applicable mode at all (equals not configured and one side zero): credit 0 or a
@@ -171,17 +170,22 @@ Rel(m, X, dx, Y, dy) == CASE m = "equals" -> RelEq(X, dx, Y, dy)
                           [] m = "proportional" -> RelProp(X, Y)
                           [] m = "offset" -> RelOff(X, dx, Y, dy)
                           [] m = "linear" -> RelLin(X, Y)
-HoldsStrict(E, dE, S, dS) == {m \in Modes : Rel(m, E, dE, S, dS) /\ Rel(m, S, dS, E, dE)}
-HoldsLoose(E, dE, S, dS) == {m \in Modes : Rel(m, E, dE, S, dS) \/ Rel(m, S, dS, E, dE)}
+\* both directions of every relation, evaluated once
+RelTable(E, dE, S, dS) == TLCEval([m \in Modes |-> [fwd |-> Rel(m, E, dE, S, dS), bwd |-> Rel(m, S, dS, E, dE)]])
+StrictOf(t) == {m \in Modes : t[m].fwd /\ t[m].bwd}
+LooseOf(t) == {m \in Modes : t[m].fwd \/ t[m].bwd}
+HoldsStrict(E, dE, S, dS) == StrictOf(RelTable(E, dE, S, dS))
+HoldsLoose(E, dE, S, dS) == LooseOf(RelTable(E, dE, S, dS))
 Configured(cfg) == {m \in Modes : cfg[m] # None}
 EitherZero(E, S) == SeqIsZero(E) \/ SeqIsZero(S)
 ValidModes(cfg, E, S) == IF EitherZero(E, S) THEN Configured(cfg) \cap ZeroCompatible ELSE Configured(cfg)
 MaxCredit(cfg, R) == IF R = {} THEN Zero ELSE cfg[CHOOSE m \in R : \A n \in R : Leq(cfg[n], cfg[m])]
-LinearCredits(cfg, E, dE, S, dS) ==
+LinearCreditsT(cfg, t, E, S) ==                                   \* t = RelTable(E, dE, S, dS)
   LET v == ValidModes(cfg, E, S)
-      lo == HoldsStrict(E, dE, S, dS) \cap v
-      hi == HoldsLoose(E, dE, S, dS) \cap v
+      lo == StrictOf(t) \cap v
+      hi == LooseOf(t) \cap v
   IN {MaxCredit(cfg, R) : R \in {X \in SUBSET hi : lo \subseteq X}}
+LinearCredits(cfg, E, dE, S, dS) == LinearCreditsT(cfg, RelTable(E, dE, S, dS), E, S)
 
 (* ------------------------------------------------------------------ outcomes
    what the statement allows for a case is a set of tokens; what the code did is an observation record
@@ -247,8 +251,6 @@ MemberAt(c, s) ==
     [] c.kind = "equal" -> VEq(c.S[s], c.P[s][1])
 AllMember(c) == \A s \in 1..NSamples(c) : MemberAt(c, s)
 AllReal(c) == \A s \in 1..NSamples(c) : VIsReal(c.S[s])
-\* the target is a multiple of the modulus at some sample and the submission carries a tolerance/1000 shift
-WrapAmbiguous(c) == c.jit # 0 /\ \E s \in 1..NSamples(c) : Div(VRe(c.P[s][1]), VRe(c.P[s][2]))[2] = 1
 
 RECURSIVE FlatEnts(_)
 FlatEnts(vals) == IF Len(vals) = 0 THEN <<>> ELSE Head(vals).ent \o FlatEnts(Tail(vals))
@@ -263,7 +265,6 @@ Allowed(c) ==
   ELSE CASE c.kind \in {"cong", "between"} ->
               IF ~AllReal(c) THEN {Grade(Zero), SFError}
               ELSE IF ~AllMember(c) THEN (IF c.typed THEN {Grade(Zero), SFError} ELSE {Grade(Zero)})
-              ELSE IF c.kind = "cong" /\ WrapAmbiguous(c) THEN {Grade(One), Grade(Zero)}
               ELSE {Grade(One)}
          [] c.kind \in {"eigen", "span", "phase", "equal"} -> IF AllMember(c) THEN {Grade(One)} ELSE {Grade(Zero)}
          [] c.kind = "entry" ->
@@ -271,14 +272,79 @@ Allowed(c) ==
                                  Len(c.S[1].ent), c.mode))}
          [] c.kind = "linear" -> {Grade(q) : q \in LinCredits(c)} \cup (IF NoModeApplies(c) THEN {SFError} ELSE {})
 
-Relation(c) ==
+RelationOf(c, allowed) ==
   IF c.evalerr THEN "evalerr"
   ELSE IF WrongShape(c) THEN "wrongshape"
   ELSE IF c.kind \in {"cong", "between"} /\ (~AllReal(c) \/ (c.typed /\ ~AllMember(c))) THEN "silent"
-  ELSE IF Cardinality(Allowed(c)) > 1 THEN "ambiguous"
-  ELSE IF Allowed(c) = {Grade(One)} THEN "member"
-  ELSE IF Allowed(c) = {Grade(Zero)} THEN "nonmember"
+  ELSE IF Cardinality(allowed) > 1 THEN "ambiguous"
+  ELSE IF allowed = {Grade(One)} THEN "member"
+  ELSE IF allowed = {Grade(Zero)} THEN "nonmember"
   ELSE "partial"
+Relation(c) == RelationOf(c, Allowed(c))
+
+(* ------------------------------------------------------------------ implementation-shaped decision procedures
+   How the code decides (one operator per code block of comparers.py / linear_comparer.py), on the same exact lattice
+   values.  These operators EXPLAIN, they never decide a verdict: the model instance compares every observation with
+   ImplOutcome as well and reports a mismatch as DRIFT.  TLC checks ImplRefines (does the implementation-shaped model
+   stay inside the property-level Allowed set?) and finds it FALSE -- the counterexamples are the design-level defects
+   of DeviationClass -- and checks LawImplDeviatesOnlyThere: outside these circumscribed situations the two agree.
+
+     between / congruence   a value of complex type never reaches the comparison: "start <= x <= stop" and "x % m" raise
+                            TypeError, which the grader turns into the generic "Could not check input" error; a
+                            non-real value is refused by between_comparer with "Input must be real."
+     congruence             both sides are reduced modulo m, then compared: a shift by tolerance/1000 below a
+                            multiple of m (target = 0 mod m) lands at the far end of the residue interval
+     eigenvector            M v is compared with lambda v relative to |M v|: for the eigenvalue 0 the percentage
+                            tolerance has radius 0 and anything but an exactly vanishing M v is refused
+     vector_span            numpy.linalg.lstsq returns NO residual when the system is rank deficient or has no more rows
+                            than columns; the norm of the empty residual is 0, so the submission is accepted
+     LinearComparer         the "equals" and "offset" errors are sqrt(sum((x - y)^2)) WITHOUT complex conjugation: for
+                            complex samples the sum of squares can vanish although x # y; proportional and linear use
+                            least squares of  expected = a * student + b  (a constant student falls back to offset);
+                            max() over no applicable mode raises                                                  *)
+SqSum(D) == GSum([k \in 1..Len(D) |-> GMul(D[k], D[k])])
+ImplSpanAccept(v, vs) == Rank(vs) < Len(vs) \/ Len(v) <= Len(vs) \/ InSpan(v, vs)
+ImplOffsetZero(X, dx, Y, dy) == LET D == DiffSeq(Y, dy, X, dx)   n == Len(D)   tot == GSum(D)
+                                IN SqSum([k \in 1..n |-> GSub(tot, GScale(n, D[k]))]) = GZ
+\* error_calculators[m](student S, expected E) vanishes
+ImplFitZero(m, E, dE, S, dS) ==
+  CASE m = "equals" -> SqSum(DiffSeq(S, dS, E, dE)) = GZ
+    [] m = "proportional" -> RelProp(E, S)
+    [] m = "offset" -> ImplOffsetZero(S, dS, E, dE)
+    [] m = "linear" -> IF SeqIsConst(S) THEN ImplOffsetZero(S, dS, E, dE) ELSE RelLin(E, S)
+SignOf(q) == IF q[1] > 0 THEN 1 ELSE IF q[1] < 0 THEN -1 ELSE 0
+JitterWraps(c) == c.jit # 0 /\ Div(VRe(c.P[1][1]), VRe(c.P[1][2]))[2] = 1 /\ c.jit * SignOf(VRe(c.P[1][2])) < 0
+\* eigenvalue 0, percentage tolerance, and the tolerance/1000 shift of the first coordinate makes M v non-zero
+EigenZeroShift(c) == /\ c.tol = "pct" /\ c.jit # 0 /\ VIsZero(c.P[1][2])
+                     /\ \E i \in 1..c.P[1][1].shape[1] : c.P[1][1].ent[(i - 1) * c.P[1][1].shape[2] + 1] # GZ
+ImplOutcome(c) ==
+  IF c.evalerr \/ WrongShape(c) THEN CHOOSE a \in Allowed(c) : TRUE
+  ELSE CASE c.kind \in {"cong", "between"} ->
+              IF c.typed \/ ~AllReal(c) THEN SFError
+              ELSE IF ~AllMember(c) THEN Grade(Zero)
+              ELSE IF c.kind = "cong" /\ JitterWraps(c) THEN Grade(Zero) ELSE Grade(One)
+         [] c.kind = "eigen" ->
+              IF AllMember(c) /\ EigenZeroShift(c) THEN Grade(Zero) ELSE CHOOSE a \in Allowed(c) : TRUE
+         [] c.kind = "span" ->
+              IF \A s \in 1..NSamples(c) : ~VIsZero(c.S[s]) /\ ImplSpanAccept(c.S[s].ent, Ents(c.P[s])) THEN Grade(One) ELSE Grade(Zero)
+         [] c.kind = "linear" ->
+              LET E == LinE(c)  dE == c.P[1][1].den  S == LinS(c)  dS == c.S[1].den   v == ValidModes(c.cfg, E, S) IN
+              IF v = {} THEN SFError ELSE Grade(MaxCredit(c.cfg, {m \in v : ImplFitZero(m, E, dE, S, dS)}))
+         [] OTHER -> CHOOSE a \in Allowed(c) : TRUE
+ImplRefines(c) == ImplOutcome(c) \in Allowed(c)
+\* the circumscribed situations in which the implementation-shaped model leaves the documented class
+DeviationClass(c) ==
+  IF c.evalerr \/ WrongShape(c) THEN "none"
+  ELSE IF c.kind \in {"cong", "between"} /\ c.typed /\ AllReal(c) /\ AllMember(c)
+       THEN (IF c.kind = "between" THEN "between-real-typed-complex" ELSE "congruence-real-typed-complex")
+  ELSE IF c.kind = "cong" /\ ~c.typed /\ AllReal(c) /\ AllMember(c) /\ JitterWraps(c) THEN "congruence-wraparound"
+  ELSE IF c.kind = "eigen" /\ AllMember(c) /\ EigenZeroShift(c) THEN "eigen-zero-eigenvalue-percent-tolerance"
+  ELSE IF c.kind = "span" /\ ~AllMember(c) /\ \E s \in 1..NSamples(c) : Rank(Ents(c.P[s])) < Len(c.P[s]) \/ Len(c.S[s].ent) <= Len(c.P[s])
+       THEN "span-rank-deficient"
+  ELSE IF c.kind = "linear" /\ ~(\A s \in 1..NSamples(c) : VIsReal(c.S[s]) /\ VIsReal(c.P[s][1]))
+       THEN "linear-complex-sum-of-squares"
+  ELSE "none"
+LawImplDeviatesOnlyThere(c) == ImplRefines(c) \/ DeviationClass(c) # "none"
 
 (* ------------------------------------------------------------------ overflow-aware comparison of non-negative rationals *)
 RECURSIVE CmpFrac(_, _, _, _)
@@ -355,18 +421,27 @@ LinearGuard(c) ==
   IN /\ \A m \in Modes \ HoldsLoose(E, dE, S, dS) :
           Far(c, FitRes2(m, E, dE, S, dS), mag2) /\ Far(c, FitRes2(m, S, dS, E, dE), mag2)
      /\ SeqIsZero(S) \/ Far(c, Q(N2(S), dS * dS), mag2)
-(* A percentage of zero is zero: where the natural reference of a percentage tolerance vanishes (eigenvalue 0, target
-   congruent to 0) and under the tolerance 0, a member is ON the boundary of the tolerance band and only exact binary
-   arithmetic (power-of-two denominators) decides it the same way in floating point. *)
+(* A percentage of zero is zero: where the natural reference of a percentage tolerance vanishes (eigenvalue 0: M v = 0 has
+   no scale) and under the tolerance 0, a member is ON the boundary of the tolerance band; a target congruent to 0 sits
+   at the two ends of the residue interval, so that a rounding error of the reduction moves a member to the far end.
+   In these situations only exact binary arithmetic (power-of-two denominators) decides membership the same way in
+   floating point, and only such cases are generated (DESIGN 2.5: boundary values only where exact in binary).
+   (The defects behind these boundaries are reproduced with exact dyadic values plus the tolerance/1000 shift, see
+   DeviationClass; with inexact values the real code shows them too: eigenvector [0.3, -0.1] of [[1,3],[3,9]] for
+   the eigenvalue 0 is rejected under the default percentage tolerance, 22*pi is rejected for target 0 modulo 2*pi.) *)
 RECURSIVE IsPow2(_)
 IsPow2(d) == d = 1 \/ (d % 2 = 0 /\ IsPow2(d \div 2))
 ExactArithmetic(c) == \A s \in 1..NSamples(c) : IsPow2(c.S[s].den) /\ \A i \in 1..Len(c.P[s]) : IsPow2(c.P[s][i].den)
-ZeroReference(c, s) == c.tol = "pct" /\ ((c.kind = "eigen" /\ VIsZero(c.P[s][2]))
-                                       \/ (c.kind = "cong" /\ Div(VRe(c.P[s][1]), VRe(c.P[s][2]))[2] = 1))
+ZeroReference(c, s) == \/ c.tol = "pct" /\ c.kind = "eigen" /\ VIsZero(c.P[s][2])
+                       \/ c.kind = "cong" /\ Div(VRe(c.P[s][1]), VRe(c.P[s][2]))[2] = 1     \* residue 0: the two ends of the residue interval
 OnBoundary(c) == c.tol = "zero" \/ \E s \in 1..NSamples(c) : ZeroReference(c, s)
+\* the shift tolerance/1000 is 1e-10 under the percentage tolerance: meaningful for vectors of norm >= 0.1 only
+JitterOK(c) == c.jit # 0 => \/ c.tol = "abs"
+                            \/ c.tol = "pct" /\ c.kind \in {"eigen", "span", "phase"} /\ Leq(<<1, 100>>, VNorm2(c.S[1]))
 GuardOK(c) ==
   IF c.evalerr \/ WrongShape(c) THEN TRUE
   ELSE /\ OnBoundary(c) => ExactArithmetic(c)
+       /\ JitterOK(c)
        /\ IF c.kind = "entry" THEN EntryGuard(c)
           ELSE IF c.kind = "linear" THEN LinearGuard(c)
           ELSE \A s \in 1..NSamples(c) : IF MemberAt(c, s) THEN MemberClear(c, s) ELSE FarAt(c, s)
@@ -375,10 +450,11 @@ GuardOK(c) ==
 TokenOK(a) == /\ a.k \in {"grade", "sferror", "mismatch", "evalshape"}
               /\ a.k = "grade" => Leq(Zero, a.g) /\ Leq(a.g, One)
               /\ a.k = "mismatch" => a.how \in {"raise", "reject"} /\ a.lvl \in {"none", "type", "shape"}
-LawOutcomeWellFormed(c) == Allowed(c) # {} /\ \A a \in Allowed(c) : TokenOK(a)
+\* (al = Allowed(c), passed in so that the model instance evaluates it once)
+LawOutcomeWellFormed(c, al) == al # {} /\ \A a \in al : TokenOK(a)
 \* a wrong shape is never graded, whatever the policy; suppression always yields a silent rejection
-LawWrongShapeNeverGraded(c) == (WrongShape(c) \/ c.evalerr) => \A a \in Allowed(c) : a.k \in {"mismatch", "evalshape"}
-LawSuppressSilent(c) == (WrongShape(c) \/ c.evalerr) /\ c.policy.suppress => \A a \in Allowed(c) : a.how = "reject" /\ a.lvl = "none"
+LawWrongShapeNeverGraded(c, al) == (WrongShape(c) \/ c.evalerr) => \A a \in al : a.k \in {"mismatch", "evalshape"}
+LawSuppressSilent(c, al) == (WrongShape(c) \/ c.evalerr) /\ c.policy.suppress => \A a \in al : a.how = "reject" /\ a.lvl = "none"
 \* congruence: invariant under shifts by the modulus and under the sign of the modulus; reflexive
 LawCongruence(x, t, m) == /\ Congruent(t, t, m)
                           /\ Congruent(x, t, m) <=> Congruent(VAdd(x, m), t, m)
@@ -415,15 +491,15 @@ LawEntryCredit(n, mode) == \A m \in 0..n :
 \* linear: equals implies proportional (unless zero) and offset, each of which implies linear; the roles of student and
 \* expected are exchangeable in the strict reading; configuring one more mode never lowers the credit
 LawRelationHierarchy(E, dE, S, dS) ==
-  LET h == HoldsStrict(E, dE, S, dS) IN
+  LET t == RelTable(E, dE, S, dS)   h == StrictOf(t) IN
   /\ "equals" \in h => "offset" \in h /\ "linear" \in h /\ "proportional" \in h
   /\ "proportional" \in h /\ ~SeqIsZero(S) /\ ~SeqIsZero(E) => "linear" \in h
   /\ "offset" \in h => "linear" \in h
-  /\ HoldsStrict(E, dE, S, dS) = HoldsStrict(S, dS, E, dE) /\ HoldsStrict(E, dE, S, dS) \subseteq HoldsLoose(E, dE, S, dS)
-LawMoreModesNeverLower(cfg, E, dE, S, dS, m, q) ==
-  cfg[m] = None => \A x \in LinearCredits(cfg, E, dE, S, dS) : \E y \in LinearCredits([cfg EXCEPT ![m] = q], E, dE, S, dS) : Leq(x, y)
-LawLinearCreditConfigured(cfg, E, dE, S, dS) ==
-  \A x \in LinearCredits(cfg, E, dE, S, dS) : x = Zero \/ \E m \in Configured(cfg) : cfg[m] = x
+  /\ h = HoldsStrict(S, dS, E, dE) /\ h \subseteq LooseOf(t)
+LawMoreModesNeverLower(cfg, t, E, S, m, q) ==
+  cfg[m] = None => \A x \in LinearCreditsT(cfg, t, E, S) : \E y \in LinearCreditsT([cfg EXCEPT ![m] = q], t, E, S) : Leq(x, y)
+LawLinearCreditConfigured(cfg, t, E, S) ==
+  \A x \in LinearCreditsT(cfg, t, E, S) : x = Zero \/ \E m \in Configured(cfg) : cfg[m] = x
 \* student = (a/ad) expected + b/bd, generated by the defining transformation
 LawGeneratedRelations(E, dE, S, dS, a, ad, b) ==
   LET h == HoldsLoose(E, dE, S, dS) IN
